@@ -374,7 +374,7 @@ class Analyzer:
                     pl = mir.op_place(a)
                     if pl is not None and not pl["p"] and pl["l"] in closure_of:
                         cl_args.append((ai, pl["l"], closure_of[pl["l"]]))
-                if res in self.prog.bodies and "itemlist::ItemList" not in res and not (any(rx.match(res) for rx in self.opaque) and self.is_known(res)):
+                if res in self.prog.bodies and ("itemlist::ItemList" not in res or not self.is_known(res)) and not (any(rx.match(res) for rx in self.opaque) and self.is_known(res)):
                     sub = self.summary(res)
                     if sub is None:
                         S.complete = False
